@@ -110,6 +110,13 @@ class TS:
                 j = i
                 while j < len(nets) and nets[j].is_cell and nets[j].cell == cell and nets[j].bit == bit + (j - i):
                     j += 1
+                if cell in self._evaluating and isinstance(self.nl.cells[cell], nir.AssignmentList):
+                    # a signal some of whose bits are computed from other bits of the same signal (e.g.
+                    # `w[11:16].eq(f(w[0:11]))`): no bit-level loop, but the AssignmentList cell refers to itself.
+                    # Evaluate just the referenced slice of the assignment list.
+                    parts.append(self._alist_slice(cell, bit, j - i + bit))
+                    i = j
+                    continue
                 v = self.cell(cell)
                 if bit == 0 and (j - i) == v.size():
                     parts.append(v)
@@ -120,12 +127,45 @@ class TS:
             return parts[0]
         return z3.Concat(*reversed(parts))
 
+    _evaluating = frozenset()
+
     def cell(self, idx):
         v = self.cellval.get(idx)
         if v is None:
-            v = self._eval(idx, self.nl.cells[idx])
+            if not isinstance(self._evaluating, set):
+                self._evaluating = set()
+            self._evaluating.add(idx)
+            try:
+                v = self._eval(idx, self.nl.cells[idx])
+            finally:
+                self._evaluating.discard(idx)
             self.cellval[idx] = v
         return v
+
+    def _alist_slice(self, idx, lo, hi):
+        """Bits [lo, hi) of an AssignmentList cell, evaluated without evaluating its other bits."""
+        key = (idx, lo, hi)
+        cache = self.__dict__.setdefault("_slice_cache", {})
+        if key in cache:
+            return cache[key]
+        c = self.nl.cells[idx]
+        cur = self.val(list(c.default)[lo:hi])
+        w = hi - lo
+        for a in c.assignments:
+            anets = list(a.value)
+            alo, ahi = a.start, a.start + len(anets)
+            olo, ohi = max(lo, alo), min(hi, ahi)
+            if olo >= ohi:
+                continue
+            v = self.val(anets[olo - alo:ohi - alo])
+            parts = []
+            if olo > lo: parts.append(z3.Extract(olo - lo - 1, 0, cur))
+            parts.append(v)
+            if ohi < hi: parts.append(z3.Extract(w - 1, ohi - lo, cur))
+            new = parts[0] if len(parts) == 1 else z3.Concat(*reversed(parts))
+            cur = z3.If(self.netb(a.cond), new, cur)
+        cache[key] = cur
+        return cur
 
     # ------------------------------------------------------------------ cell semantics
     def _eval(self, idx, c):
